@@ -1057,6 +1057,9 @@ def oracle_C18(case: dict, real: dict, model: dict) -> List[str]:
     v, env, x = case["v"], case.get("env", []), real["xd"]
     if v["k"] == "knr":
         return out
+    if v["k"] in ("union", "optional"):
+        # "a union accepts iff one of its variants does": the variants are run alone (as in C05)
+        out += [f for f in oracle_C05(case, real, model)]
     which = case.get("c18", 0)
     for m in MODES:
         base = real[m]["out"]
